@@ -1277,6 +1277,14 @@ impl Router {
             });
         }
         snap.groups.sort_by(|a, b| a.name.cmp(&b.name));
+        for (_, data) in self.datalog.native.iter() {
+            snap.filters.push((
+                data.verif_filter().to_owned(),
+                data.log.verif_head_offset(),
+                data.log.next_offset().1,
+            ));
+        }
+        snap.filters.sort();
         snap.graveyard = self.graveyard.verif_ids();
         snap.last_wills = self.last_wills.keys().cloned().collect();
         snap.last_wills.sort();
